@@ -44,8 +44,13 @@ func (g *pgen) corpus(focus string, start int) []*ConvSpec {
 							if zero == 1 && upd == 0 {
 								continue
 							}
-							sid := g.newNamed(1, &Ty{K: "struct", Pkg: 1, Fields: []Field{{"Name", tBasic(bkString)}, {"Age", tBasic(bkInt)}, {"Tags", tSlice(tBasic(bkString))}}}, "S")
-							tid := g.newNamed(1, &Ty{K: "struct", Pkg: 1, Fields: []Field{{"Name", tBasic(bkString)}, {"Age", tBasic(bkInt)}, {"Tags", tSlice(tBasic(bkString))}, {"Extra", tBasic(bkString)}}}, "T")
+							// PT / PM / PU: T -> *U below the top level, generated inline (unnamed slice / map / struct): a fresh non-nil pointer
+							// also in a method that starts from a default FUNC
+							un := &Ty{K: "struct", Pkg: 1, Fields: []Field{{"N", tBasic(bkInt)}}}
+							sid := g.newNamed(1, &Ty{K: "struct", Pkg: 1, Fields: []Field{{"Name", tBasic(bkString)}, {"Age", tBasic(bkInt)}, {"Tags", tSlice(tBasic(bkString))},
+								{"PT", tSlice(tBasic(bkString))}, {"PM", tMap(tBasic(bkString), tBasic(bkInt))}, {"PU", un}, {"PS", tBasic(bkString)}}}, "S")
+							tid := g.newNamed(1, &Ty{K: "struct", Pkg: 1, Fields: []Field{{"Name", tBasic(bkString)}, {"Age", tBasic(bkInt)}, {"Tags", tSlice(tBasic(bkString))},
+								{"PT", tPtr(tSlice(tBasic(bkString)))}, {"PM", tPtr(tMap(tBasic(bkString), tBasic(bkInt)))}, {"PU", tPtr(un)}, {"PS", tPtr(tBasic(bkString))}, {"Extra", tBasic(bkString)}}}, "T")
 							src, tgt := tNamed(sid), tNamed(tid)
 							if srcPtr == 1 {
 								src = tPtr(src)
